@@ -23,7 +23,7 @@ PAIRS = [
     ("fooBar", "fooBaz", True),
     ("alpha", "beta", False),
 ]
-ENUM_PAIRS = [("class", "class_"), ("None", "None_"), ("RED", "GREEN"), ("_INTERNAL", "INTERNAL"),
+ENUM_PAIRS = [("class", "class_"), ("None", "None_"), ("RED", "GREEN"), ("_INTERNAL", "INTERNAL"), ("mro", "mro_"), ("_order_", "ok"),
               ("fooBar", "foo_bar"), ("A1", "a1")]
 
 
